@@ -5,6 +5,7 @@ import QipVerif.Lemmas.GateCtrl
 import QipVerif.Lemmas.GateExact
 import QipVerif.Lemmas.GateCtor
 import QipVerif.Gen.GateCtor
+import QipVerif.Lemmas.CircHeap
 import QipVerif.Model.Circuit
 /-!
 # C09 — library gates are unitary, match their documented matrix, and are path-independent
@@ -591,6 +592,35 @@ theorem circuit_path_history_independent {α β : Type} (own : α → β) (pre p
   refine ⟨(pre ++ g :: post).map own, by simp [propagatorsCompact, hr], by simp, by simp; omega⟩
 
 example : propagatorsCompact G.circuitGateUnitary (fun n : Nat => n * n) [2, 3, 5] = some [4, 9, 25] := by decide
+
+/-- **A fresh circuit resolves every library name to the library matrix, whatever happened to other objects** (model
+`CircHeap`: circuits hold dictionary OBJECTS; rule `Gen.G.circuitDefaultUserGates` regenerated from `QubitCircuit.__init__` /
+`add_circuit`).  After ANY history `pre` of constructions, `qc.user_gates[name] = …` and `add_circuit` calls in the process,
+a circuit created by `QubitCircuit(N)` (number `n`) holds a new empty dictionary that no other circuit holds; and after ANY
+further history `post` that does not write that circuit's own dictionary (no `setUser n`, no `add_circuit` INTO `n`, nobody
+is handed its dictionary object) — in particular whatever custom "T" or "X" other circuits define, merge or overwrite —
+`_get_gate_unitary` of circuit `n` finds no user gate for any name: by `circuit_path_history_independent` it reports the
+gate's own `get_compact_qobj()` -/
+theorem fresh_circuit_resolves_library (pre post : List CircHeap.Op) (name : String) :
+    G.circuitDefaultUserGates = "new-dict-per-circuit" ∧
+    let h := CircHeap.run ⟨[], []⟩ pre
+    let n := h.circ.length
+    (post.all (CircHeap.Op.avoids n h.dicts.length) = true →
+      CircHeap.resolve (CircHeap.run (CircHeap.step h .newDefault) post) n name = none) := by
+  refine ⟨by decide, ?_⟩
+  intro h n hp
+  have hw : CircHeap.WF h := CircHeap.run_wf pre _ CircHeap.wf_empty
+  exact CircHeap.resolve_of_inv (CircHeap.run_inv n h.dicts.length post _ hp (CircHeap.newDefault_inv h hw)) name
+
+/-- the history of seeded C09-17 in the model: a block with a custom "T", a main circuit that merges it (and so resolves "T"
+to the custom matrix), then a fresh circuit — which resolves "T" to the library; had the main and the fresh circuit been
+handed ONE dictionary object (`newWith`), the fresh one would resolve "T" to the custom matrix -/
+example :
+    let ops : List CircHeap.Op := [.newDict [("T", 7)], .newWith 0, .newDefault, .addCircuit 1 0 false, .newDefault]
+    let h := CircHeap.run ⟨[], []⟩ ops
+    CircHeap.resolve h 0 "T" = some 7 ∧ CircHeap.resolve h 1 "T" = some 7 ∧ CircHeap.resolve h 2 "T" = none ∧
+    CircHeap.resolve (CircHeap.run ⟨[], []⟩ [.newDict [("T", 7)], .newWith 0, .newDict [], .newWith 1,
+      .addCircuit 1 0 false, .newWith 1]) 2 "T" = some 7 := by decide
 
 /-- **The matrix of a class that reads `control_value`** (`ControlledGate.get_compact_qobj`, i.e. ControlledGate itself
 and CX, CY, CS, CT, CRX, CRY, CRZ): for an object with `m` listed controls and control value `v < 2^m`, whatever the
